@@ -191,6 +191,17 @@ func genDecide(r *rand.Rand) DecideCase {
 			c.Events = append(c.Events, ev)
 		}
 	}
+	// numbers no table holds: the x32 range and beyond (the compiled filter answers ENOSYS itself on x86_64;
+	// so does the kernel for whatever the filter lets through, so these probes are harmless)
+	if p.Default != actAllow || r.Intn(3) == 0 {
+		for _, nr := range []uint64{0x80000027, 0xBFFFFFFF, 0x40000027, 0x7FFFFFFF, 0xC0000000, 0xFFFFFFFF}[r.Intn(3) : 3+r.Intn(4)] {
+			ev := Event{Nr: nr}
+			for a := range ev.Args {
+				ev.Args[a] = argval()
+			}
+			c.Events = append(c.Events, ev)
+		}
+	}
 	nev := 10 + r.Intn(10)
 	for i := 0; i < nev; i++ {
 		ev := Event{Nr: probeNr(probes[r.Intn(len(probes))])}
